@@ -1496,6 +1496,75 @@ def gen_deep():
     return out
 
 
+def gen_shapes2():
+    """Hand-built families for shapes that rounds 15 of the seeded changes needed (the model decides
+    what is expected; the programs also serve as bases of the stub / permutation streams):
+    (a) two functions reading a field of a parameter, the first of the declared struct type, the
+        second of a LOOKALIKE of it (same name, other attributes), in both orders: what one body
+        established about a type name must not carry over to the next body;
+    (b) a struct-typed name re-declared inside a nested body with a field read there, and the next
+        field read of that name after the body / in a sibling body: must see the outer declaration;
+    (c) a loop body that holds the very same `if` twice (equal down to the identifier positions),
+        once as its last statement, with something observable in between."""
+    P_ = lambda x: ("p", x)
+    U = lambda n, attrs: ("u", n, attrs)
+    out = []
+    S1 = U("St", [("a", P_("i8")), ("b", P_("bool"))])
+    looks = [U("St", [("a", P_("bool"))]), U("St", [("b", P_("bool")), ("a", P_("i8"))]), U("St", [("a", P_("i8")), ("b", P_("bool")), ("c", P_("u8"))]), S1]
+    for k, L in enumerate(looks):
+        for order in (0, 1):
+            g = Gen(0)
+            decl = ["struct", g.ident("St")] + [["attr", g.ident(a), g.ty(at)] for a, at in S1[2]]
+            f1 = ["fn", g.ident("first"), ["params", [g.ident("p"), g.ty(S1)]], ["prim", "i8"],
+                  ["body", ["ret", ["expr", ["field", g.ident("p"), g.ident("a")]]]]]
+            ta = dict(L[2])["a"]
+            f2 = ["fn", g.ident("second"), ["params", [g.ident("q"), g.ty(L)]], g.ty(ta),
+                  ["body", ["ret", ["expr", ["field", g.ident("q"), g.ident("a")]]]]]
+            fns = [f1, f2] if order == 0 else [f2, f1]
+            out.append((["program", decl] + fns, {"stream": "shapes", "family": "lookalike-field", "pair": k, "order": order}))
+    for k, (where, after) in enumerate([("if", "after"), ("loop", "after"), ("if", "else"), ("else", "after"), ("if", "elif")]):
+        g = Gen(0)
+        S = U("S", [("a", P_("u64")), ("b", P_("u64"))])
+        decl = ["struct", g.ident("S")] + [["attr", g.ident(a), g.ty(at)] for a, at in S[2]]
+        inner = [["let", g.ident("p"), 0, ["noty"], ["expr", ["ext", g.ty(S), 1]]],
+                 ["let", g.ident("q"), 0, ["noty"], ["expr", ["field", g.ident("p"), g.ident("b")]]]]
+        readp = lambda nm: ["let", g.ident(nm), 0, ["noty"], ["expr", ["field", g.ident("p"), g.ident("a")]]]
+        cond = ["single", ["expr", ["name", g.ident("c")]]]
+        els, elif_ = ["noelse"], ["noelif"]
+        if after == "else":
+            els = ["else", ["ifbody", readp("r")]]
+        if after == "elif":
+            elif_ = ["elif", ["ifs", ["single", ["expr", ["name", g.ident("c")]]], ["ifbody", readp("r")], ["noelse"], ["noelif"]]]
+        if where == "if":
+            st = ["if", ["ifs", cond, ["ifbody"] + inner, els, elif_]]
+        elif where == "else":
+            st = ["if", ["ifs", cond, ["ifbody"], ["else", ["ifbody"] + inner], ["noelif"]]]
+        else:
+            st = ["loop"] + inner + [["break"]]
+        body = [st, ["ret", ["expr", ["field", g.ident("p"), g.ident("a")]]]]
+        f = ["fn", g.ident("f"), ["params", [g.ident("p"), g.ty(S)], [g.ident("c"), ["prim", "bool"]]], ["prim", "u64"], ["body"] + body]
+        out.append((["program", decl, f], {"stream": "shapes", "family": "field-after-block", "k": k}))
+    for k, (inner_stmt, between) in enumerate([("break", "call"), ("break", "let"), ("continue", "call"), ("let", "call"), ("ret", "let")]):
+        g = Gen(0)
+        step = ["fn", g.ident("step"), ["params"], ["prim", "i32"], ["body", ["ret", ["expr", ["prim", ["pv", "i32", 1]]]]]]
+        ib = {"break": [["break"]], "continue": [["continue"]], "let": [["let", g.ident("t"), 0, ["noty"], ["expr", ["prim", ["pv", "i32", 3]]]]],
+              "ret": [["ret", ["expr", ["prim", ["pv", "i32", 7]]]]]}[inner_stmt]
+        cond = ["single", ["expr", ["name", g.ident("c")]]]
+        same_if = ["if", ["ifs", cond, (["loopbody"] if inner_stmt in ("break", "continue") else ["ifbody"]) + ib, ["noelse"], ["noelif"]]]
+        mid = (["call", g.ident("step")] if between == "call" else
+               ["let", g.ident("m"), 0, ["noty"], ["expr", ["prim", ["pv", "i32", 5]]]])
+        # the SAME tree object twice: equal down to the positions of its identifiers
+        if inner_stmt == "break":
+            loop = ["loop", same_if, mid, same_if]
+        else:
+            exit_if = ["if", ["ifs", ["single", ["expr", ["name", g.ident("d")]]], ["loopbody", ["break"]], ["noelse"], ["noelif"]]]
+            loop = ["loop", same_if, mid, exit_if, same_if]
+        f = ["fn", g.ident("poll"), ["params", [g.ident("c"), ["prim", "bool"]], [g.ident("d"), ["prim", "bool"]]], ["prim", "i32"],
+             ["body", loop, ["ret", ["expr", ["prim", ["pv", "i32", 1]]]]]]
+        out.append((["program", step, f], {"stream": "shapes", "family": "same-if-twice", "k": k}))
+    return out
+
+
 def gen_wide():
     """Wide rather than deep (limits on counts show up here): 70 parameters and arguments, 70 functions
     calling each other, 300 shadowing lets in one block, a struct with 70 attributes, a 300-character
